@@ -492,13 +492,20 @@ func cmdClientConnect(a Args) {
 		name   string
 		answer []byte
 		want   string
+		split  int // > 0: the answer arrives in two segments, the first of this many bytes
 	}
-	cases := []ccase{{"code0", []byte{0x20, 2, 0, 0}, "ok"}, {"code0-sp", []byte{0x20, 2, 1, 0}, "ok"}}
+	cases := []ccase{{"code0", []byte{0x20, 2, 0, 0}, "ok", 0}, {"code0-sp", []byte{0x20, 2, 1, 0}, "ok", 0}}
 	for c := 1; c <= 5; c++ {
-		cases = append(cases, ccase{fmt.Sprintf("code%d", c), []byte{0x20, 2, 0, byte(c)}, fmt.Sprintf("code%d", c)})
+		cases = append(cases, ccase{fmt.Sprintf("code%d", c), []byte{0x20, 2, 0, byte(c)}, fmt.Sprintf("code%d", c), 0})
 	}
-	cases = append(cases, ccase{"malformed-code9", []byte{0x20, 2, 0, 9}, "error"}, ccase{"not-connack", []byte{0x90, 3, 0, 1, 0}, "error"},
-		ccase{"truncated", []byte{0x20, 2, 0}, "error"}, ccase{"closed", nil, "error"})
+	cases = append(cases, ccase{"malformed-code9", []byte{0x20, 2, 0, 9}, "error", 0}, ccase{"not-connack", []byte{0x90, 3, 0, 1, 0}, "error", 0},
+		ccase{"truncated", []byte{0x20, 2, 0}, "error", 0}, ccase{"closed", nil, "error", 0})
+	// the same answers arriving in two TCP segments: the result may not depend on how the bytes are cut
+	for _, c := range append([]ccase{}, cases...) {
+		for sp := 1; sp < len(c.answer) && len(c.answer) == 4; sp++ {
+			cases = append(cases, ccase{fmt.Sprintf("%s-split%d", c.name, sp), c.answer, c.want, sp})
+		}
+	}
 	for rep := 0; rep < a.num("reps", 3); rep++ {
 		for _, c := range cases {
 			res.Evaluations++
@@ -515,7 +522,13 @@ func cmdClientConnect(a Args) {
 				}
 				readPkt(conn, 2*time.Second)
 				if c.answer != nil {
-					conn.Write(c.answer)
+					if c.split > 0 {
+						conn.Write(c.answer[:c.split])
+						time.Sleep(60 * time.Millisecond)
+						conn.Write(c.answer[c.split:])
+					} else {
+						conn.Write(c.answer)
+					}
 					time.Sleep(20 * time.Millisecond)
 				}
 				if c.want != "ok" {
